@@ -5,7 +5,7 @@
    ReadLoop report closure and return (stream ended, failed with a status, peer close).
    Hypothesis limit_ok: 0 <= ReadMaxPayloadSize and ReadMaxPayloadSize + 9 <= 2^31; without it the uint32 rounding
    in BufferPool.Get makes the model panic: C04_large_limit_refuted (finding D12). *)
-From Gws Require Import Lib.Base Model.Header Model.Pool Model.CloseCode Model.Reader Proofs.ReaderProofs Gen.Funcs Proofs.GenFuncsProofs.
+From Gws Require Import Lib.Base Model.Header Model.Pool Model.CloseCode Model.Reader Proofs.ReaderProofs Gen.Funcs Proofs.GenPoolProofs.
 Local Open Scope N_scope.
 
 Theorem C04_never_panics_terminates :
